@@ -6429,9 +6429,6 @@ impl Nudge {
         increment: NoUnits128,
         mode: RoundMode,
     ) -> Result<Nudge, Error> {
-        #[cfg(not(feature = "std"))]
-        use crate::util::libm::Float;
-
         assert!(smallest >= Unit::Day);
         // When rounding to weeks below months or years, the balanced span
         // carries its whole weeks in its days. Count them, so that the
@@ -6466,19 +6463,32 @@ impl Nudge {
                 .try_checked_mul("signed increment", sign)?,
         )?;
 
-        // FIXME: This is brutal. This is the only non-optional floating point
-        // used so far in Jiff. We do expose floating point for things like
-        // `Span::total`, but that's optional and not a core part of Jiff's
-        // functionality. This is in the core part of Jiff's span rounding...
-        let denom = (relative1 - relative0).get() as f64;
-        let numer = (relative_end.to_nanosecond() - relative0).get() as f64;
-        let exact = (truncated.get() as f64)
-            + (numer / denom) * (sign.get() as f64) * (increment.get() as f64);
-        let rounded = mode.round_float(exact, increment);
-        // `rounded` is either `truncated` or one increment further from
-        // zero. (Comparing the sign of `rounded - exact` instead mistakes an
-        // exact value, whose difference is `0.0`, for growth of a positive
-        // span.)
+        // The value of the span in increments of the smallest unit is
+        // `k + sign * numer / denom`, where `k = truncated / increment` and
+        // `numer / denom` is how far into the window the end of the span
+        // lies. It is rounded exactly, as the integer `k * denom + sign *
+        // numer` in steps of `denom`. (Floating point cannot represent a
+        // remainder of a few nanoseconds next to a large `k`.)
+        let denom = (relative1 - relative0).get().abs();
+        let numer = (relative_end.to_nanosecond() - relative0).get().abs();
+        if denom == 0 {
+            // e.g., A day that a time zone skipped entirely.
+            return Err(err!(
+                "rounding {unit} relative to the given datetime is not \
+                 possible because the {unit} following it has no length",
+                unit = smallest.singular(),
+            ));
+        }
+        let k = truncated.get() / increment.get();
+        let exact = k * denom + i128::from(sign.get()) * numer;
+        let steps = mode
+            .round(NoUnits128::new_unchecked(exact), NoUnits128::new_unchecked(denom))
+            .get()
+            / denom;
+        // The rounded count of units always fits the (64-bit) range of a
+        // span's units, as does the truncated count it is one step from.
+        let rounded = NoUnits::try_new128("rounded units", steps * increment.get())
+            .map(NoUnits128::rfrom)?;
         let grew_big_unit = rounded != truncated;
 
         let span = span
